@@ -240,10 +240,17 @@ type vtree struct {
 	tree *merkle.CompactMerkleTree
 }
 
+var vtreeCtr int
+
 func buildTree(r *hx.Run, n int, dup bool) *vtree {
 	t := &vtree{tree: merkle.NewTree(0, nil, merkle.NewMemHashStore())}
+	special := []int{1, 31, 32, 33, 63, 64, 65, 66, 127, 128, 129, 255, 256, 1000}
 	for i := 0; i < n; i++ {
 		d := r.Rng.Bytes(1 + r.Rng.Intn(12))
+		if i%3 == 1 { // leaf lengths around the hash block / preimage buffer boundaries
+			vtreeCtr++
+			d = r.Rng.Bytes(special[vtreeCtr%len(special)])
+		}
 		if dup && i > 0 && r.Rng.Chance(1, 4) {
 			d = t.data[r.Rng.Intn(i)]
 		}
@@ -384,6 +391,30 @@ func (f *mverify) Gen(r *hx.Run) {
 			}
 			r.Do(fmt.Sprintf("vleaf %s %d %d %s %s", hx.Hex(t.data[i]), i, n, hx.Hex(root[:]), hexList(proof)))
 			r.Do(fmt.Sprintf("aplen %d %d", i, n))
+			// the accepted leaf with its last byte changed, same proof
+			d2 := append([]byte{}, t.data[i]...)
+			d2[len(d2)-1] ^= byte(1 << uint(r.Rng.Intn(8)))
+			r.Do(fmt.Sprintf("vleaf %s %d %d %s %s", hx.Hex(d2), i, n, hx.Hex(root[:]), hexList(proof)))
+			r.Hist("mut.incl.leaf-last-byte")
+			// special expected roots (all-zero, the empty-tree root, the leaf hash itself, all-ones) combined with
+			// proofs of the right and of the wrong length
+			var zero, ones common.Uint256
+			for j := range ones {
+				ones[j] = 0xff
+			}
+			var extra common.Uint256
+			copy(extra[:], r.Rng.Bytes(32))
+			shapes := [][]common.Uint256{proof, append(cloneHashes(proof), extra), nil}
+			if len(proof) > 0 {
+				shapes = append(shapes, proof[:len(proof)-1], proof[1:])
+			}
+			for _, sr := range []common.Uint256{zero, refMTH(nil), t.lh[i], ones} {
+				for k, p := range shapes {
+					if k == 0 || r.Rng.Chance(1, 2) || n <= 8 {
+						emit(t.lh[i], i, n, sr, p, "special-root")
+					}
+				}
+			}
 			for k := 0; k < muts; k++ {
 				lh, ii, nn, rt, p := t.lh[i], i, n, root, cloneHashes(proof)
 				nm := 1
@@ -524,6 +555,22 @@ func (f *mverify) Gen(r *hx.Run) {
 				}
 				emit(mm, nn, a, b, p, strings.Join(kinds, "+"))
 			}
+			// special roots (all-zero, empty-tree root) on either side, proofs of the right and of the wrong length
+			if m >= 1 {
+				var zero, extra common.Uint256
+				copy(extra[:], r.Rng.Bytes(32))
+				shapes := [][]common.Uint256{proof, append(cloneHashes(proof), extra), nil}
+				if len(proof) > 0 {
+					shapes = append(shapes, proof[:len(proof)-1])
+				}
+				for _, p := range shapes {
+					emit(m, n, zero, r2, p, "special-old-root")
+					emit(m, n, r1, zero, p, "special-new-root")
+					if r.Rng.Chance(1, 3) {
+						emit(m, n, zero, refMTH(nil), p, "special-both-roots")
+					}
+				}
+			}
 			// the honest proof of the forked list against the honest roots and vice versa
 			if m >= 1 {
 				p2 := t2.tree.ConsistencyProof(uint32(m), uint32(n))
@@ -555,6 +602,13 @@ func (f *mverify) Gen(r *hx.Run) {
 				emitP(path, o, "same-path-other-root")
 			}
 			emitP(path, root[:], "honest-again")
+			emitP(path, make([]byte, 32), "zero-root")
+			if n := len(t.data[i]); n > 0 {
+				// the proved value with its last byte changed (value bytes end right before the first pair)
+				p2 := append([]byte{}, path...)
+				p2[len(path)-33*len(refPath(i, t.lh))-1] ^= 0x01
+				emitP(p2, root[:], "value-last-byte")
+			}
 			if err2 == nil {
 				if res := emitP(path2, root[:], "honest-paired"); res != "ok "+hx.Hex(t.data[i]) {
 					r.Viol(fmt.Sprintf("C07:honest-paired-path-rejected:i=%d:n=%d", i, n), "MerkleProve rejects an honestly generated paired-level leaf path: "+res)
